@@ -2,15 +2,71 @@
 """Regenerates MANIFEST.json from the table below (kept in one place so it stays valid)."""
 import json, subprocess
 
-CLAIMED = {
- # id: (category, technique, text, note, design_ref)
- "C01": ("model_checking", "bounded-exhaustive enumeration of shapes x values x entry points against the identity oracle",
-         "Every serde shape tree up to k nodes x its complete bounded value domain is pushed through every encode entry point and every decode entry point of the real crate (with guard pages) and must come back bit-identical with the exact remainder. A complete walk of a stated finite space, not a sample.",
-         "Small-scope hypothesis for shapes (k nodes) and structured value families for >=32-bit integers / long strings; typed corpus is finite.", "DESIGN.md#c01"),
- "C02": ("model_checking", "bounded-exhaustive enumeration against an independent spec encoder",
-         "Same space as C01; the real encoder's bytes are compared byte-for-byte with an encoder written from wire-format.md, plus the unknown-length and collect_str rules.",
-         "Reference encoder transcribes the spec (self-tested on the spec's worked examples); same small-scope assumptions as C01.", "DESIGN.md#c02"),
+MC="model_checking"; FE="fault_enumeration"
+ALL = {
+ "C01": (MC, "bounded-exhaustive enumeration of shapes x values x entry points against the identity oracle",
+         "Every serde shape tree up to k nodes x its complete bounded value domain is pushed through every encode entry point and every decode entry point of the real crate (inputs flush against guard pages) and must come back bit-identical with the exact remainder. A complete walk of a stated finite space, not a sample.",
+         "Small-scope hypothesis for shapes (k nodes) and structured value families for >=32-bit integers / long strings; typed corpus is finite.", "DESIGN.md 4.C01"),
+ "C02": (MC, "bounded-exhaustive enumeration against an independent spec encoder",
+         "Same space as C01; the real encoder's bytes are compared byte-for-byte with an encoder written from wire-format.md, plus the unknown-length and collect_str rules and a typed corpus recorded through an independent Serializer.",
+         "Reference encoder transcribes the spec (self-tested on the spec's worked examples); same small-scope assumptions as C01.", "DESIGN.md 4.C02"),
+ "C03": (MC, "exhaustive enumeration of byte strings per shape against an independent spec decoder",
+         "Whole input space of the 16-bit varint reader up to 3 (quick) / 4 (thorough) bytes, alphabet-complete string spaces for wider readers, every shape <= k nodes x every string over a decoder-relevant alphabet, and every prefix / substitution / re-padding / adversarial-length perturbation of every valid encoding; accept/reject, value, consumed length, remainder pointer and error kind are compared with a decoder written from the specification.",
+         "Alphabet restriction for >16-bit readers; error kinds compared only for the six kinds the property names; zero-width sequence claims > 4096 not executed.", "DESIGN.md 4.C03"),
+ "C04": (MC, "exhaustive enumeration of byte strings per shape under guard-page / panic / allocation monitors",
+         "C03's input space decoded with the input flush against an inaccessible page on either side, under a panic trap, a counting allocator with a hard cap, and a check that every borrowed slice lies in the input where the spec decoder predicts; typed corpus of std/heapless types for the allocation bound; any/identifier/ignored requests must be refused.",
+         "Memory safety is observed by monitors on every enumerated execution, not proved for unenumerated ones; maps are outside the allocation bound (as the property states for zero-width elements, and see DESIGN 4b.4).", "DESIGN.md 4.C04"),
+ "C05": (FE, "exhaustive enumeration of the fault point (capacity at which the buffer runs out) for every value and framing",
+         "For every enumerated value and every framing (plain, COBS, CRC of each width) every capacity from 0 to len+2 is tried on guarded slice buffers and const-generic heapless vectors: success iff capacity >= length, bytes equal the unbounded encoding, canaries intact, buffer-full error otherwise.",
+         "Finite value corpus; heapless capacities from a macro-instantiated table.", "DESIGN.md 4.C05"),
+ "C06": (MC, "exhaustive message enumeration + explicit-state search of the COBS encoder flavour against an independent COBS codec",
+         "All messages up to a bound over {00,01,02,FF}, all run structures around multiples of 254, a state walk of the real encoder flavour from every run length, all storages, and all frame sequences up to 4 (quick) / 6 (thorough) frames decoded frame-at-a-time.",
+         "Reference COBS written from the Cheshire-Baker definition (self-tested on published vectors).", "DESIGN.md 4.C06"),
+ "C07": (MC, "exhaustive enumeration of byte strings over a code-byte alphabet against independent COBS decoder + spec decoder",
+         "Every string up to the bound over {00..04,FF} x target types x both entry points, plus every truncation and single-byte corruption of long frames, on guarded buffers; result must equal reference COBS decode followed by the spec decoder, remainder must start right after the first sentinel.",
+         "The in-place decoder lives in the cobs dependency; what is decided is postcard's use of its report.", "DESIGN.md 4.C07"),
+ "C08": (MC, "explicit-state BFS over all reachable accumulator states x all chunks (step refinement) + all streams x all chunkings (trace oracle)",
+         "The whole reachable state space (buf[N], idx) of the real accumulator for N=1..6(7) is explored; every transition is compared with a step model; every stream up to the bound is additionally cut in every possible way and run through the documented loop. stateright re-explores the same graph in the thorough tier.",
+         "Step refinement extends to unbounded streams by induction; byte alphabet {00,01,02,03}(+FF).", "DESIGN.md 4.C08"),
+ "C09": (MC, "explicit-state BFS of the full accumulator graph incl. overflow transitions; zero-progress-cycle and resync invariants; trace oracle on unrestricted streams",
+         "Same graph as C08 without the fits restriction: no panic, idx<=N, reset after every sentinel, overflow reported before the sentinel is passed, no zero-progress cycle, fitting frames after any sentinel delivered intact, loop terminates within 2*len+2 iterations.",
+         "As C08.", "DESIGN.md 4.C09"),
+ "C10": (MC, "bounded-exhaustive enumeration of frames x every bit flip x every burst pattern against a bitwise CRC reference",
+         "Values x five widths x catalogue algorithms x storages; every accepted input must carry the right checksum per an independent Rocksoft-model CRC; every single-bit flip and every burst up to the stated length at every offset of every pooled frame must be rejected when the decoded length is unchanged.",
+         "Burst patterns longer than the stated Bmax are represented by end-point patterns only (reported as a cap).", "DESIGN.md 4.C10"),
+ "C11": (FE, "deviation-bounded DFS over environment answers of every read/write/flush call x scratch sizes x message sequences",
+         "Every read/write/flush call is a choice point (full, 1 byte, all-but-one, Interrupted, error, zero); all schedules for short transfers and all schedules with <= 2 (quick) / 3 (thorough) deviations otherwise, crossed with every scratch size 0..need+1 and sequences of messages on one stream.",
+         "Deviation bound; embedded-io 0.6 adapter in the main binary.", "DESIGN.md 4.C11"),
+ "C12": (MC, "exhaustive product of per-field extreme values over a typed corpus of every MaxSize impl",
+         "For every built-in and derived MaxSize type the complete product of extreme field values is serialised; every length must be <= POSTCARD_MAX_SIZE and for the tight class the maximum must be attained.",
+         "Extends to all values by monotonicity of varint length in magnitude (stated assumption).", "DESIGN.md 4.C12"),
+ "C13": (MC, "whole-domain (16-bit) and structured-pattern enumeration of the fixint adapters against to_le_bytes/to_be_bytes",
+         "All 8 widths x both byte orders; entire 16-bit domains, every single-byte and adjacent two-byte pattern for wider widths, whole 32-bit domain in thorough.",
+         "Structured families for 64/128-bit.", "DESIGN.md 4.C13"),
+ "C14": (MC, "bounded-exhaustive typed corpus: recorded Serializer call tree vs. T::SCHEMA conformance + schema-driven decode",
+         "Every built-in Schema impl (incl. optional integrations) and a derived corpus x bounded value products; the data-model call tree recorded by an independent Serializer must conform to the schema, and a schema-driven spec decoder must consume each encoding exactly.",
+         "Finite typed corpus.", "DESIGN.md 4.C14"),
+ "C15": (MC, "exhaustive enumeration of schema trees up to k nodes with name cycling",
+         "Every schema tree up to k nodes: owned conversion equals the AST, borrowed and owned encodings are identical and equal the spec encoding of the AST, bytes decode back to the owned tree.",
+         "Trees bounded by node count.", "DESIGN.md 4.C15"),
+ "C16": (MC, "exhaustive enumeration of schema trees x paths x every single-node mutation against an independent FNV-1a tag-stream implementation",
+         "Const hasher (via hook), owned hasher and independent reference must agree on every tree and path; every single-node mutation whose reference stream differs must change the key; type-name mutations must not.",
+         "Const fn evaluated at run time through the hook, cross-checked with genuinely const-evaluated keys on the typed corpus; FNV collisions.", "DESIGN.md 4.C16"),
+ "C17": (MC, "bounded-exhaustive enumeration of shapes x values (filtered as the property says) against static encoder and serde_json",
+         "For every in-scope shape and value: to_stdvec_dyn(schema, json) equals static bytes and from_slice_dyn(schema, bytes) equals serde_json::to_value.",
+         "Domain filter exactly as in the property.", "DESIGN.md 4.C17"),
+ "C18": (MC, "exhaustive enumeration of schema trees x byte strings x bounded JSON grammar under panic/allocation monitors",
+         "No panic in either direction, allocation bounded by a multiple of the input, and the re-encode fixpoint on everything the encoder accepts.",
+         "Bounded JSON grammar; dangerous cases (predicted unbounded loops) isolated in subprocesses.", "DESIGN.md 4.C18"),
+ "C19": (MC, "exhaustive enumeration of schema trees up to k nodes",
+         "to_pseudocode/Display/all_used_types never panic; the collected set equals the set of sub-trees; renderings mention type, field and variant names.",
+         "Trees bounded by node count.", "DESIGN.md 4.C19"),
+ "C20": (MC, "bounded-exhaustive enumeration of values x flavour stacks x storages against composed reference transformers",
+         "Every stack (plain, COBS, CRC_w, CRC_w over COBS) over every storage equals the composition of the independent COBS/CRC transformers; recording user flavours see exactly the plain encoding.",
+         "Finite value corpus.", "DESIGN.md 4.C20"),
 }
+BUILT = ["C01","C02","C03","C04","C08","C09"]
+CLAIMED = {k: v for k, v in ALL.items() if k in BUILT}
 
 NOT_APPLICABLE = {}
 
